@@ -1,5 +1,7 @@
 import Driver.Common
 import RxModel.Thr2Lock
+import RxModel.Thr2Aio
+import RxModel.Thr2Timer
 open Lean Drv
 
 namespace DrvThr2
@@ -65,10 +67,55 @@ def ambRun (j : Json) : Except String Json := do
     ("max_active", .num (JsonNumber.fromNat S.maxActive)),
     ("choice", match S.st with | none => .null | some b => .bool b)])
 
+/-- `aio_replay`: the asyncio model of one scheduled action under an observed schedule. -/
+def aioReplay (j : Json) : Except String Json := do
+  let fl ← (do match (← getStr j "fl") with
+    | "plain" => pure Thr2Aio.Flavour.plain | "ts" => pure .ts | x => throw s!"bad fl {x}" : Except String Thr2Aio.Flavour)
+  let kind ← (do match (← getStr j "kind") with
+    | "soon" => pure Thr2Aio.Kind.soon | "rel" => pure .rel | x => throw s!"bad kind {x}" : Except String Thr2Aio.Kind)
+  let mode ← (do match (← getStr j "mode") with
+    | "onLoop" => pure Thr2Aio.Mode.onLoop | "foreign" => pure .foreign | "notRunning" => pure .notRunning
+    | x => throw s!"bad mode {x}" : Except String Thr2Aio.Mode)
+  let test ← (do match (← getStr j "test") with
+    | "asIs" => pure Thr2Aio.Test.asIs | "fixed" => pure .fixed | x => throw s!"bad test {x}" : Except String Thr2Aio.Test)
+  let c : Thr2Aio.Cfg := ⟨fl, kind, mode, test⟩
+  let sched := (← getArr j "sched").filterMap (fun x => x.getNat?.toOption)
+  let (labels, s) := Thr2Aio.runLabels c (Thr2Aio.init c) sched
+  pure (Json.mkObj [
+    ("labels", Json.arr (labels.map Json.str).toArray),
+    ("started", .bool s.started), ("returned", .bool s.returned), ("late", .bool s.late), ("early", .bool s.early)])
+
+/-- `timer_replay`: the real-time scheduler model of one action under an observed schedule;
+`imm`: the ImmediateScheduler functions. -/
+def timerReplay (j : Json) : Except String Json := do
+  let kind ← (do match (← getStr j "kind") with
+    | "timer" => pure Thr2Timer.SKind.timer | "evloop" => pure .evloop | x => throw s!"bad kind {x}" : Except String Thr2Timer.SKind)
+  let imm ← getBool j "immediate"
+  let c : Thr2Timer.Cfg := ⟨kind, imm⟩
+  let sched := (← getArr j "sched").filterMap (fun x => x.getNat?.toOption)
+  let (labels, s) := Thr2Timer.runLabels c (Thr2Timer.init c) sched
+  pure (Json.mkObj [
+    ("labels", Json.arr (labels.map Json.str).toArray),
+    ("started", .bool s.started), ("early", .bool s.early), ("bad", .bool s.bad)])
+
+def immOut : Thr2Timer.ImmOut → Json
+  | .ranSync => .str "ran"
+  | .wouldBlock => .str "wouldblock"
+
+def immRun (j : Json) : Except String Json := do
+  match (← getStr j "how") with
+  | "schedule" => pure (immOut Thr2Timer.immSchedule)
+  | "relative" => do pure (immOut (Thr2Timer.immRelative (← getInt j "delay")))
+  | "absolute" => do pure (immOut (Thr2Timer.immAbsolute (← getInt j "due") (← getInt j "now")))
+  | x => throw s!"bad how {x}"
+
 def handle (op : String) (j : Json) : Except String Json := do
   match op with
+  | "timer_replay" => timerReplay j
+  | "imm" => immRun j
   | "lock_replay" => lockReplay j
   | "amb_run" => ambRun j
+  | "aio_replay" => aioReplay j
   | _ => throw s!"unknown op {op}"
 
 end DrvThr2
